@@ -112,7 +112,7 @@ func Exec(c *Case) (nontrivial bool, labels []string, fail *vlib.Failure) {
 		it := h.Model.Intents[n]
 		ruling, shadowed := 0, 0
 		for p := range it.Leaves {
-			if device[p] != merge[p] {
+			if dv, has := device[p]; !has || dv != merge[p] {
 				// the device itself does not hold the winner (a defect C01 / C05 report): re-sending is legitimate
 				if vlib.MustCanon(p).IsKeyLeaf() {
 					continue
